@@ -154,6 +154,24 @@ def rule_c_d(repo, chk):
     rets = [n for n in gs.nodes if n.kind == 'stmt' and isinstance(n.ast, ast.Return)]
     ok = bool(ck) and all(Q.reachable_without(gs, r, avoid_node=lambda n: n in ck) is None for r in rets)
     chk.ob('c', st.ref, 'serialisation re-runs the check (fields are mutable) before formatting', ok, loc(st, st.node), discr='checked-at-serialisation')
+    # the check only looks at text (isinstance(value, str) filters): what is formatted must be the checked values themselves, and they must be text
+    filt = any(isinstance(w, ast.comprehension) and any('isinstance' in src(i) and 'str' in src(i) for i in w.ifs) for w in ast.walk(chkf.node))
+    arg_defs = [n for n in gs.nodes if n.kind == 'stmt' and isinstance(n.ast, ast.Assign) and len(n.ast.targets) == 1 and isinstance(n.ast.targets[0], ast.Name)
+                and 'args' in Q.names_used(fmt) | {k.arg for k in getattr(fmt, 'keywords', [])} and src(n.ast.targets[0]) == 'args']
+    plain = bool(arg_defs) and all(src(n.ast.value).replace(' ', '') in ('self.args[:]', 'list(self.args)', 'self.args', 'self.args.copy()') for n in arg_defs)
+    chk.ob('c', st.ref, 'the arguments formatted into the line are the checked `self.args` themselves (a copy), not a re-decoded or otherwise derived list',
+           plain, loc(st, arg_defs[0].ast if arg_defs else st.node), detail='; '.join(src(n.ast) for n in arg_defs), discr='formatted-are-checked')
+    mk = [n for n in walk_no_defs(init.node) if isinstance(n, ast.Assign) and any(src(t) == 'self.args' for t in n.targets)]
+    texty = False
+    for n in mk:
+        v = n.value
+        if isinstance(v, ast.ListComp):
+            e = v.elt
+            texty = (isinstance(e, ast.IfExp) and 'isinstance' in src(e.test) and 'str' in src(e.test) and
+                     ((src(e.body) == src(v.generators[0].target) and '.decode(' in src(e.orelse)) or ('.decode(' in src(e.body) and src(e.orelse) == src(v.generators[0].target)))) \
+                or (isinstance(e, ast.Call) and call_name(e) == 'str')
+    chk.ob('c', init.ref, 'the constructor turns every argument into text (bytes are decoded), so the text-only check sees all of them', texty or not filt,
+           loc(init, mk[0] if mk else init.node), discr='args-are-text')
     b = cls.methods.get('__bytes__')
     if b is not None:
         ok = any(src(c).startswith('str(self)') for c in calls_in(b.node))
